@@ -4,8 +4,9 @@
 # VERIF_REPO points the checks at that worktree, VERIF_OUT keeps their output apart.  /repo is not touched.
 set -u
 ID=$1; N=$2; shift 2
-WT=/tmp/seed/$ID; PATCH=$WT/mutant_$N/patch.diff; DEMO=$WT/mutant_$N/demo.py
-TAG=$ID-$N
+ROOT=${SEED_ROOT:-/tmp/seed}; OFF=${SEED_NUM_OFFSET:-0}
+WT=$ROOT/$ID; PATCH=$WT/mutant_$N/patch.diff; DEMO=$WT/mutant_$N/demo.py
+TAG=$ID-$((N+OFF))
 RES=/verif/out/seed_$TAG.txt; : > $RES
 cd $WT || exit 3
 git checkout -q -- . ; git merge -q --ff-only $(git -C /repo rev-parse HEAD) 2>/dev/null || git checkout -q --detach $(git -C /repo rev-parse HEAD)
